@@ -85,6 +85,16 @@ def kinds():
             evs += [f"req 0 {nodegen.ccr(0, 0, 'node.local')} 5 rx_0_{nodegen.cca(hb, e, 'peer1.x')}"]
         return evs + ["eof 0", "tick"]
 
+    def outbound_req_timeout(N):
+        # the caller gives up after 1 s; the answer arrives afterwards (and is nobody's any more)
+        evs = ["start fail", "acc", "rx 0 " + nodegen.cer("peer1.x", "4", n(), n())]
+        hb, e = 2000, 268435463
+        for i in range(N):
+            hb += 1
+            e += 1
+            evs += [f"req 0 {nodegen.ccr(0, 0, 'node.local')} 1", "rx 0 " + nodegen.cca(hb, e, "peer1.x")]
+        return evs + ["eof 0", "tick"]
+
     def conn_ok(N):
         evs = ["start fail"]
         for i in range(N):
@@ -141,7 +151,7 @@ def kinds():
 
     return {"inbound_req": inbound_req, "inbound_req_norc": inbound_req_norc, "hard_write_error": hard_write_error,
             "rejected_req": rejected_req, "dup_reject": dup_reject, "dwr_in": dwr_in, "dwr_out": dwr_out,
-            "outbound_req": outbound_req, "conn_ok": conn_ok, "conn_node_closes": conn_node_closes, "conn_unknown": conn_unknown,
+            "outbound_req": outbound_req, "outbound_req_timeout": outbound_req_timeout, "conn_ok": conn_ok, "conn_node_closes": conn_node_closes, "conn_unknown": conn_unknown,
             "conn_timeout": conn_timeout, "conn_already": conn_already, "dial_refused": dial_refused,
             "dial_async_fail": dial_async_fail, "dial_rejected": dial_rejected, "dial_established": dial_established}
 
@@ -195,7 +205,7 @@ def run(res: Result, tier: str, seed: int):
 
 
 def signature(f: dict):
-    if f.get("grow") == ["appW"] and f.get("kind") == "outbound_req":
+    if f.get("grow") == ["appW"] and f.get("kind") in ("outbound_req", "outbound_req_timeout"):
         return "app_waiting_never_pruned"
     return None
 
